@@ -113,3 +113,10 @@ def applyQ (A : Csr Rat) (x r : Array Rat) (transposed : Bool) : Option (Array R
 def applyAxpyQ (A : Csr Rat) (x y r : Array Rat) (alpha : Rat) (alias transposed : Bool) : Option (Array Rat) :=
   A.applyAxpy (tinyRat epsQ) x y r alpha alias transposed
 end FeatModel.LA.Csr
+
+namespace FeatModel.LA.Csr
+/-- blocked-vector overloads at the driver's scalar -/
+def applySBQ (bs : Nat) (A : Csr Rat) (x r : Array Rat) : Option (Array Rat) := A.applySB (tinyRat epsQ) bs x r
+def applyAxpySBQ (bs : Nat) (A : Csr Rat) (x y r : Array Rat) (alpha : Rat) (alias : Bool) : Option (Array Rat) :=
+  A.applyAxpySB (tinyRat epsQ) bs x y r alpha alias
+end FeatModel.LA.Csr
